@@ -886,4 +886,60 @@ theorem truncated_list (vs : List Val) (h : ∀ v ∈ vs, Valid v) (n : Nat) (hn
       rw [List.take_append, List.take_of_length_le hge, roundtrip_one v _ hv]
       simp only [hr, List.cons_append]
 
+/-! ### pattern digests, self-aliasing ReWrite, stream round trip of lists -/
+
+theorem digestPatLoop_eq (seed : Nat) : ∀ (k i h : Nat),
+    digestPatLoop seed k i h = ((List.range' i k).map (patByte seed)).foldl digestStep h := by
+  intro k
+  induction k with
+  | zero => intro i h; simp [digestPatLoop]
+  | succ k ih => intro i h; simp [digestPatLoop, ih, List.range'_succ]
+
+/-- the index loop computes the digest of the materialised pattern -/
+theorem digestPat_eq (seed n : Nat) : digestPat seed n = digest (pat seed n) := by
+  simp [digestPat, digest, pat, digestPatLoop_eq, List.range_eq_range']
+
+theorem pat_length (seed n : Nat) : (pat seed n).length = n := by simp [pat]
+
+theorem rewriteSelf_in_range (pos frm to : Nat) (buf : Bytes) (h1 : frm ≤ to) (h2 : to ≤ buf.length)
+    (h3 : pos + (to - frm) ≤ buf.length) :
+    ∃ buf', rewriteSelf (pos : Int) frm to buf = some buf' ∧ buf'.length = buf.length ∧
+      (∀ j, j < to - frm → buf'[pos + j]? = buf[frm + j]?) ∧
+      (∀ i, i < pos ∨ pos + (to - frm) ≤ i → buf'[i]? = buf[i]?) := by
+  have hl : ((buf.take to).drop frm).length = to - frm := by simp; omega
+  refine ⟨_, rewrite_in_range pos _ buf (by omega), splice_length pos _ buf (by omega), ?_, ?_⟩
+  · intro j hj
+    rw [splice_get_inside pos _ buf (by omega) j (by omega)]
+    rw [List.getElem?_drop, List.getElem?_take]
+    have : frm + j < to := by omega
+    simp [this]
+  · intro i hi
+    exact splice_get_outside pos _ buf (by omega) i (by omega)
+
+theorem agreeAll_ok (xs : List (Out Val)) (vs : List Val) (h : agreeAll xs (vs.map .ok) = true) : xs = vs.map .ok := by
+  induction vs generalizing xs with
+  | nil => cases xs <;> simp_all [agreeAll]
+  | cons v vs ih =>
+    cases xs with
+    | nil => simp [agreeAll] at h
+    | cons x xs =>
+      simp only [List.map_cons, agreeAll, Bool.and_eq_true] at h
+      have hx : x = .ok v := by
+        cases x with
+        | ok a => simp [Out.agree] at h; rw [h.1]
+        | err e => simp [Out.agree] at h
+      rw [hx, ih xs h.2]; rfl
+
+/-- a stream carrying the encodings of a list of values, however fragmented, reads them all back and is then exhausted -/
+theorem stream_roundtrip_list (c : Cfg) (hc : Proved c) (vs : List Val) (hv : ∀ v ∈ vs, Valid v)
+    (hs : ∀ v ∈ vs, (tyOf v).streamable = true) (s : Src) (hflat : s.flat = vs.flatMap enc) :
+    (readAllStream c (vs.map tyOf) s).1 = vs.map .ok ∧ (readAllStream c (vs.map tyOf) s).2.flat = [] := by
+  have hts : ∀ t ∈ vs.map tyOf, t.streamable = true := by
+    intro t ht; obtain ⟨v, hvm, rfl⟩ := List.mem_map.1 ht; exact hs v hvm
+  obtain ⟨a, r⟩ := readAllStream_sim c hc (vs.map tyOf) hts s
+  have hb := readAll_roundtrip vs [] hv
+  rw [List.append_nil] at hb
+  rw [hflat, hb] at a r
+  exact ⟨agreeAll_ok _ _ a, r⟩
+
 end Nv.C10
